@@ -816,7 +816,7 @@ META = {
     "note": ("Trusted: Lean kernel + 3 standard axioms; pv.lib_coop (cooperative stand-ins for Lock/Condition/time); "
              "threading.Condition semantics. Every exception other than PipeTimeout that comes out of the real object is a "
              "reported finding (never a harness crash); the buffer is observed through the class's own accessor and the "
-             "FIFO equation closes with a public empty(), so a changed internal representation is still decided. " Wake-ups are over-approximated (any parked reader may wake at any time with "
+             "FIFO equation closes with a public empty(), so a changed internal representation is still decided. Wake-ups are over-approximated (any parked reader may wake at any time with "
              "any elapsed time), so the theorems cover every behaviour of the real condition variable. Time is integer "
              "ticks in the model; the harness uses integer-valued floats."),
     "technique": "Lean 4 proof (induction over schedules, step invariants) + deterministic-schedule differential correspondence",
